@@ -32,6 +32,21 @@ CHECKS = {
   category='proof', ref='DESIGN.md section 4 (C08)',
   text="For all cost figures: a replacement is accepted only if it is no costlier in the chosen criterion and (strictly cheaper, or tied and no worse in every other criterion with one strictly better); candidate selection never returns a beaten candidate; item byte/gas figures equal an independent table for every item name and every operand; totals add exactly the per-block figures.",
   note=TRUST + "List-level figures use AbstractSeq summaries (map/filter/sum homomorphisms); block-level gas additivity across sub-blocks (warm/cold bookkeeping) is not claimed."),
+ 'C09': dict(
+  technique="contracts on ids2asm.id_to_asm_bytecode / asm_from_ids (item shape for every instruction kind, canonical hex for all words; VCs from the real AST, z3), the frame clause of the optimize_asm_contract gate and the rebuild shapes of C14, plus a bounded run of the whole tool on synthetic documents checked by an independent reader",
+  category='other', ref='DESIGN.md section 4 (C09)',
+  text="Proved: every item rebuilt from an instruction id has the instruction's name, numeric pushes carry the canonical lower-case hex of the word (all 2^256 values), pseudo pushes carry the specification's operand, unbound ids become basic stack operations and NOP is dropped; the optimized contract is a deep copy with only the code lists replaced. Bounded: on 7 synthetic documents x 3-7 option sets the skeleton (tags, JUMPDEST, jumps, terminals, split instructions with all fields), version, auxdata, data sections and source lists are unchanged, emitted items are well formed, pseudo-push operands occur in the input segment, and the output re-reads to itself.",
+  note=TRUST + "Whole-document preservation is a bounded stand-in (synthetic documents, greedy back end)."),
+ 'C14': dict(
+  technique="bounded stand-ins on the real functions (no deductive proof yet): exhaustive shape enumeration for rebuild_optimized_asm_block and process_blocks_split against the join/replace specification, generated blocks for the splitting policies and the stack hand-over between sub-block specifications",
+  category='other', ref='DESIGN.md section 4 (C14)',
+  text="Bounded: all 7 536 (shape, replacement) combinations up to 3 sub-blocks (thorough: 4) rebuild to exactly the block with the chosen segments replaced, identity when nothing is replaced; for ~290 (block, policy) pairs (lengths 1..46, around the 22-instruction threshold, 3 policies) the reported sub-blocks join to the optimizable instruction list, are cut only at split instructions / stores, every specification key names a sub-block, original_instrs is the sub-block and the stack height change of each specification equals that of its sub-block.",
+  note="Tier B only: the loop invariants of rebuild_optimized_asm_block / split_blocks are not discharged deductively. Trusted: the enumerators and the join/replace specification in contracts/c14.py."),
+ 'C15': dict(
+  technique="contract on the item parser/serializer pair (to_json(build_asm_bytecode(d)) = d for all field values and optional-field combinations, both PUSH0 settings; VCs from the real AST, z3), plus bounded stand-ins: exhaustive item-name sequences for the block partition, synthetic and shipped documents, plain-text spellings",
+  category='other', ref='DESIGN.md section 4 (C15)',
+  text="Proved for every item name of the vocabulary and all field values: parsing then serializing an item returns the same dictionary (a zero PUSH becomes PUSH0 under the flag, the documented exception; PUSHLIB through real_value). Bounded: all item-name sequences up to length 4 (5) are partitioned into non-empty blocks whose concatenation is the input; 3 synthetic documents (pseudo pushes, nested data, contracts without asm) and the shipped examples round-trip; 27 constant spellings keep their value and 50+ blocks survive text -> block -> text.",
+  note=TRUST + "Document and text round trips are bounded stand-ins."),
  'C10': dict(
   technique="exceptional postconditions: safety/resource obligations of the folding and rule kernels (re-run from C03), containment contracts on greedy_from_json / greedy_standalone / search_optimal and on the drivers (stubs may raise), plus a bounded native run of the whole pipeline on corpus and edge blocks under a time budget",
   category='other', ref='DESIGN.md section 4 (C10)',
